@@ -67,10 +67,18 @@ AllShaped(h) == \A s \in DOMAIN h : Shaped(h[s])
 \* the operation's own property is
 NewTableCalls == {"sort", "sort_order", "transpose", "copy", "head", "subsample", "partition", "collapse", "merge",
                   "concat", "align_to"}
+\* calls whose clauses read the result table ev.post[ev.res] when the call reports success
+ResultCalls == (NewTableCalls \ {"partition"}) \cup {"rt_hdf5", "rt_json", "rt_tsv", "subset_read", "construct",
+                                                    "from_adjacency", "parse_uc", "cli_add_metadata"}
+NeedsResultTable(ev) ==
+  ev.out = "ok" /\ (ev.call \in ResultCalls \/ ("inplace" \in DOMAIN ev.args /\ ~ev.args.inplace))
 Dispatch(ev) ==
   \* a step whose receiver was never produced (an earlier call of the trace failed, and was judged
   \* there) cannot be executed; it is recorded and skipped
   IF ev.out = "error:missing-receiver" THEN [TRACE_continuity |-> TRUE]
+  \* success is reported but no result table was logged: fails the result clause instead of the evaluation
+  ELSE IF NeedsResultTable(ev) /\ ev.res \notin DOMAIN ev.post
+  THEN ((CallProp(ev.call) \o "_result_is_a_well_shaped_table") :> FALSE)
   ELSE IF AllShaped(ev.pre) /\ AllShaped(ev.post)
   THEN CallClauses(ev) @@ [C05_coherent_after_every_call |-> AllCoherent(ev.post)]
        @@ (IF ev.call \in NewTableCalls THEN [C07_inputs_unchanged |-> FrameRule(ev, {ev.res})] ELSE [TRACE_continuity |-> TRUE])
